@@ -202,14 +202,14 @@ func c08GenRecord(c *Ctx) c08Rec {
 }
 
 // c08Encode calls the real encoder and returns the raw bytes plus a copy with the
-// timestamp and crc fields (head bytes 8..17) zeroed — the model's canonical form.
+// timestamp field (head bytes 8..15) zeroed — the model's canonical form.
 func c08Encode(r c08Rec) (raw []byte, canon []byte) {
 	raw, err := store.FileUtilsEncode(r.Flg, r.Key, r.Val)
 	if err != nil {
 		panic("FileUtilsEncode: " + err.Error())
 	}
 	canon = append([]byte{}, raw...)
-	for i := 8; i < 18 && i < len(canon); i++ {
+	for i := 8; i < 16 && i < len(canon); i++ { // the CRC field (bytes 16,17) is modelled and compared
 		canon[i] = 0
 	}
 	return raw, canon
